@@ -118,7 +118,8 @@ class ComponentsFileSystemFinder(BaseFinder):
             path = path.removeprefix(prefix)
         path = safe_join(root, path)
 
-        if os.path.exists(path) and self._is_path_valid(path):
+        # NOTE: Same as in `list()`, the patterns are matched against the path relative to the root dir
+        if os.path.exists(path) and self._is_path_valid(os.path.relpath(path, root).replace(os.sep, "/")):
             return path
         return None
 
